@@ -336,7 +336,7 @@ WRITE_SIG = {
     "flush_all": ([], [("delay", 0), ("noreply", True)]),
 }
 REQ_VALUES = {"key": "the-key", "value": b"payload", "cas": b"123"}
-OPT_VALUES = {"expire": [0, 7, -1, 2592001], "noreply": [True, False], "delay": [0, 3]}
+OPT_VALUES = {"expire": [0, 7, -1, 2592001], "noreply": [True, False, None], "delay": [0, 3]}
 
 
 def write_cases(tier, seed):
